@@ -6,7 +6,8 @@
    pruned mode (vertex 0 is then undeclared and reads as the 0 terminal). *)
 From Coq Require Import List NArith Bool. Import ListNotations.
 From Coq Require String. Import String.StringSyntax. Delimit Scope string_scope with string.
-From BddVerif Require Import Model.Bdd Model.Apply Model.Ops Model.VarSet Model.Dot Proofs.Sem Proofs.VarSet Proofs.Dot.
+From BddVerif Require Import Model.Bdd Model.Apply Model.Ops Model.VarSet Model.Dot Model.Serial Model.Alias Proofs.Sem Proofs.VarSet Proofs.Dot
+  Proofs.SerialIO Proofs.Alias.
 Open Scope N_scope.
 
 (* every line the writer can emit is read back as itself: the concrete syntax loses nothing *)
@@ -91,3 +92,10 @@ Example C20_ex_shared : exists ss g,
   dot_read_eval ss [[120; 32; 121]; [34; 93; 59]] [true; false] = Some true.
 Proof. vm_compute. eexists. eexists. repeat split. Qed.
 Print Assumptions C20_ex_shared.
+
+(* write_as_dot_string into ANY writer that accepts the bytes in pieces and may be interrupted (a clean schedule): the
+   bytes that arrive are exactly the text of to_dot_string, and the call answers Ok *)
+Theorem C20_dot_write_clean : forall b names pruned sched text, clean sched -> dot_of_names b names pruned = Ok text ->
+  dot_write_sched_m b names pruned sched = Ok (true, text).
+Proof. exact dot_write_clean. Qed.
+Print Assumptions C20_dot_write_clean.
